@@ -18,7 +18,8 @@ EXPLANATION = (
     "test_indices is the range from that boundary; the random split is one train_test_split call whose unpacking "
     "targets pair with its arguments in (train, test) order. (R16.4) total/train/test statistics are computed from "
     "(decisions, rewards) of the same origin, all statistics records share one key set, predictions are "
-    "accumulated old + new in loop order. Decides the structure of the partition and of the crediting; every "
+    "accumulated old + new in loop order. (R16.5) no truth test in the crediting loop is applied to a numeric "
+    "statistic ([stat] / .get(stat)): presence is decided on containers. Decides the structure of the partition and of the crediting; every "
     "numerical clause (stats equal recomputation, min <= mean <= max) is not decided.")
 ASSUMPTIONS = ["sklearn.train_test_split returns (train, test) pairs in argument order and partitions the rows",
                "python slices clamp at the end of the array", "CPython ast"]
@@ -142,6 +143,7 @@ def check_window(ctx, fn, loop, label, pre_stmts):
         ok_cnt = length in ["len(%s)" % a for a in arrays]
     ctx.check(ok_cnt, "R16.1", "%s: the number of windows is ceil(number of rows / window size)" % label, loop, fn,
               "count is ceil(%s / %s), rows sliced: %s" % (length, size, arrays), construct=label + " count")
+    return lo, hi
 
 
 def check_windows(ctx):
@@ -157,19 +159,24 @@ def check_windows(ctx):
     ctx.saw_fn(on)
     lo = _loops(on.node)
     if lo:
-        check_window(ctx, on, lo[0], "online batches", on.node.body[:on.node.body.index(lo[0])])
+        ob = check_window(ctx, on, lo[0], "online batches", on.node.body[:on.node.body.index(lo[0])])
         n += 1
         inner = [s for s in lo[0].body if isinstance(s, ast.For) and "chunk" in ast.unparse(s)[:400]]
         inner = [s for s in lo[0].body if isinstance(s, ast.For)]
         if inner:
-            check_window(ctx, on, inner[0], "online chunks of a batch", lo[0].body[:lo[0].body.index(inner[0])])
+            ib = check_window(ctx, on, inner[0], "online chunks of a batch", lo[0].body[:lo[0].body.index(inner[0])])
             n += 1
             # every slice of a per-test-row list inside the chunk loop uses the chunk's global window
+            from .c15 import _bandit_var
             for node in ast.walk(inner[0]):
                 if isinstance(node, ast.Subscript) and isinstance(node.slice, ast.Slice) and \
-                        ast.unparse(node.value) == "mab.row_arm_to_expectation":
+                        isinstance(node.value, ast.Attribute) and node.value.attr == "row_arm_to_expectation" and \
+                        isinstance(node.value.value, ast.Name) and node.value.value.id == _bandit_var(node) and \
+                        ob is not None and ib is not None and node.slice.lower is not None and \
+                        node.slice.upper is not None:
                     b = (ast.unparse(node.slice.lower), ast.unparse(node.slice.upper))
-                    ctx.check(b == ("start + chunk_start", "start + chunk_stop"), "R16.1",
+                    ctx.check(b in (("%s + %s" % (ob[0], ib[0]), "%s + %s" % (ob[0], ib[1])),
+                                    ("%s + %s" % (ib[0], ob[0]), "%s + %s" % (ib[1], ob[0]))), "R16.1",
                               "online chunks: reported expectations are taken for the rows of the chunk", node, on,
                               "slice [%s:%s] is not the chunk's global window" % b)
     ctx.floor("R16.1", "window loops", n, 3)
@@ -196,30 +203,77 @@ def check_evaluator(ctx):
     prog = ctx.prog
     fn = prog.function("simulator", "default_evaluator")
     ctx.saw_fn(fn)
-    loops = [s for s in fn.node.body if isinstance(s, ast.For) and "predictions" in ast.unparse(s.iter)]
+    from .pattern import match
+    p_dec, p_rew, p_pred = fn.params[1], fn.params[2], fn.params[3]
+    loops = [s for s in fn.node.body if isinstance(s, ast.For) and
+             match("enumerate(%s)" % p_pred, s.iter) is not None and isinstance(s.target, ast.Tuple) and
+             len(s.target.elts) == 2 and all(isinstance(e, ast.Name) for e in s.target.elts)]
     if not loops:
         ctx.undecided("R16.2", "default_evaluator: per-prediction loop not found", fn.node, fn,
                       construct="def default_evaluator")
         return
     loop = loops[0]
+    idx, pred = loop.target.elts[0].id, loop.target.elts[1].id
+    # the per-arm accumulator: the one dictionary appended to under [prediction]
+    accs = {b["_ACC_"] for x in ast.walk(loop) if isinstance(x, ast.Call)
+            for b in [match("_ACC_[%s].append(_EV_)" % pred, x)] if b is not None}
+    acc = sorted(accs)[0] if len(accs) == 1 else None
+    ctx.check(acc is not None, "R16.2", "default_evaluator credits rewards to one per-arm accumulator under the "
+              "predicted arm", loop, fn, "accumulators appended to under [%s]: %s" % (pred, sorted(accs)),
+              construct="accumulator of default_evaluator")
     n = 0
     for stm, gs in _paths(loop.body):
         apps = [s for s in stm if isinstance(s, ast.Expr) and isinstance(s.value, ast.Call) and
-                ast.unparse(s.value.func) == "arm_to_rewards[predicted_arm].append"]
+                ast.unparse(s.value.func) == "%s[%s].append" % (acc, pred)]
         n += 1
         gtxt = " and ".join(("" if pol else "not ") + "(" + g + ")" for g, pol in gs) or "always"
+        gkey = gtxt.replace(pred, "PRED").replace(idx, "IDX")
         ctx.check(len(apps) == 1, "R16.2", "default_evaluator credits exactly one reward per prediction on the path "
-                  "[%s]" % gtxt, loop, fn, "%d appends on this path" % len(apps),
-                  construct="path: %s" % gtxt)
+                  "[%s]" % gkey, loop, fn, "%d appends on this path" % len(apps),
+                  construct="path: %s" % gkey)
         if len(apps) == 1:
-            observed = ast.unparse(apps[0].value.args[0]) == "rewards[index]"
-            matched = ("predicted_arm == decisions[index]", True) in gs or ("decisions[index] == predicted_arm",
-                                                                            True) in gs
+            observed = ast.unparse(apps[0].value.args[0]) == "%s[%s]" % (p_rew, idx)
+            matched = ("%s == %s[%s]" % (pred, p_dec, idx), True) in gs or \
+                ("%s[%s] == %s" % (p_dec, idx, pred), True) in gs
             ctx.check(observed == matched, "R16.2", "the observed reward is credited iff prediction == logged "
-                      "decision [%s]" % gtxt, apps[0], fn,
+                      "decision [%s]" % gkey, apps[0], fn,
                       "observed reward used: %s, prediction matches decision on this path: %s" % (observed, matched),
-                      construct="credit on path: %s" % gtxt)
-    ctx.floor("R16.2", "paths through the crediting loop", n, 4)
+                      construct="credit on path: %s" % gkey)
+    ctx.floor("R16.2", "paths through the crediting loop", n, 3)
+    # R16.5: whether a neighbourhood statistic exists is decided on containers, never on the number itself
+    from .c15 import _inline
+    stat_p = fn.params[5] if len(fn.params) > 5 else "stat"
+
+    def is_stat_value(e):
+        e = _inline(loop, e)
+        if isinstance(e, ast.Subscript) and ast.unparse(e.slice) == stat_p:
+            return True
+        if isinstance(e, ast.Call) and isinstance(e.func, ast.Attribute) and e.func.attr == "get" and e.args and \
+                ast.unparse(e.args[0]) == stat_p:
+            return True
+        if isinstance(e, ast.IfExp):
+            return is_stat_value(e.body) or is_stat_value(e.orelse)
+        return False
+    tests = []
+    for x in ast.walk(loop):
+        if isinstance(x, (ast.If, ast.IfExp, ast.While)):
+            tests.append(x.test)
+        elif isinstance(x, ast.BoolOp):
+            tests.extend(x.values[:-1] if isinstance(x.op, ast.Or) else x.values)
+    flat = []
+    for t in tests:
+        flat.extend(t.values if isinstance(t, ast.BoolOp) else [t])
+    n5 = 0
+    for t in flat:
+        if isinstance(t, ast.UnaryOp) and isinstance(t.op, ast.Not):
+            t = t.operand
+        if isinstance(t, ast.Compare):
+            continue
+        n5 += 1
+        ctx.check(not is_stat_value(t), "R16.5", "default_evaluator never tests a numeric statistic for truth", t, fn,
+                  "`%s` is a reward statistic: a neighbourhood statistic of exactly 0 would be treated as missing and "
+                  "the training statistic credited instead" % ast.unparse(t))
+    ctx.floor("R16.5", "truth tests in the crediting loop", n5, 2)
 
 
 def check_split(ctx):
@@ -232,6 +286,14 @@ def check_split(ctx):
                       construct="def _run_train_test_split")
         return
     iff = top[0]
+    rets = [r for r in fn.node.body if isinstance(r, ast.Return) and isinstance(r.value, ast.Tuple)
+            and len(r.value.elts) == 6 and all(isinstance(e, ast.Name) for e in r.value.elts)]
+    if not rets:
+        ctx.undecided("R16.3", "return (train d, r, c, test d, r, c) not found", fn.node, fn,
+                      construct="def _run_train_test_split")
+        return
+    R = [e.id for e in rets[-1].value.elts]
+    role = {"self.decisions": (R[0], R[3]), "self.rewards": (R[1], R[4]), "self.contexts": (R[2], R[5])}
     # ordered
     sl = {}
     for st in iff.body:
@@ -244,34 +306,49 @@ def check_split(ctx):
     bset = {b for (_, lo, hi) in sl.values() for b in (lo, hi) if b is not None}
     ok = len(bset) == 1 and len(sl) == 6
     b = next(iter(bset)) if bset else "?"
-    for name in ("decisions", "rewards", "contexts"):
-        tr, te = sl.get("train_" + name), sl.get("test_" + name)
-        ok = ok and tr == ("self." + name, None, b) and te == ("self." + name, b, None)
+    for src, (tr_name, te_name) in role.items():
+        tr, te = sl.get(tr_name), sl.get(te_name)
+        ok = ok and tr == (src, None, b) and te == (src, b, None)
     ctx.check(ok, "R16.3", "ordered split: train = rows before one boundary, test = rows from it, for all arrays",
               iff, fn, "slices %s" % sl, construct="ordered split slices")
     ti = [st for st in iff.body if isinstance(st, ast.Assign) and ast.unparse(st.targets[0]) == "self.test_indices"]
-    okti = bool(ti) and " ".join(ast.unparse(ti[0].value).split()) in (
-        "[x for x in range(%s, len(self.decisions))]" % b, "list(range(%s, len(self.decisions)))" % b)
+    from .pattern import match
+    okti = bool(ti) and (match("[_X_ for _X_ in range(%s, len(self.decisions))]" % b, ti[0].value) is not None or
+                         " ".join(ast.unparse(ti[0].value).split()) == "list(range(%s, len(self.decisions)))" % b)
     ctx.check(okti, "R16.3", "ordered split: test_indices is the range from the boundary", ti[0] if ti else iff, fn,
               construct="ordered test_indices")
     # random
     calls = [c for c in ast.walk(iff) if isinstance(c, ast.Call) and ast.unparse(c.func) == "train_test_split"]
+    idx_test_names = set()
     for c in calls:
         asg = parent(c)
         targets = [ast.unparse(t) for t in asg.targets[0].elts] if isinstance(asg, ast.Assign) and isinstance(
             asg.targets[0], ast.Tuple) else []
         args = [ast.unparse(a) for a in c.args]
-        okp = len(targets) == 2 * len(args)
+        okp = len(targets) == 2 * len(args) and len(args) >= 3
         for k, a in enumerate(args):
-            base = a.replace("self.", "")
-            if okp:
-                okp = targets[2 * k] == "train_" + base and targets[2 * k + 1] == "test_" + base
+            if okp and a in role:
+                okp = (targets[2 * k], targets[2 * k + 1]) == role[a]
         ctx.check(okp, "R16.3", "random split: unpacking targets pair with the arguments in (train, test) order", c,
-                  fn, "targets %s for arguments %s" % (targets, args))
-        ctx.check(args[:3] == ["indices", "self.decisions", "self.rewards"], "R16.3",
-                  "random split: indices and all data arrays are split by one call", c, fn, "arguments %s" % args)
+                  fn, "targets %s for arguments %s, returned as %s" % (targets, args, R),
+                  construct="train_test_split(%s) unpacking" % ", ".join(args[1:]))
+        # the first operand is the identity index list, split together with the data
+        idx_ok = False
+        if args and isinstance(c.args[0], ast.Name):
+            for st in ast.walk(fn.node):
+                if isinstance(st, ast.Assign) and ast.unparse(st.targets[0]) == args[0] and (
+                        match("[_X_ for _X_ in range(len(self.decisions))]", st.value) is not None or
+                        ast.unparse(st.value) in ("list(range(len(self.decisions)))",
+                                                  "np.arange(len(self.decisions))")):
+                    idx_ok = True
+        ctx.check(idx_ok and args[1:3] == ["self.decisions", "self.rewards"], "R16.3",
+                  "random split: indices and all data arrays are split by one call", c, fn, "arguments %s" % args,
+                  construct="train_test_split(%s) operands" % ", ".join(args[1:]))
+        if len(targets) >= 2:
+            idx_test_names.add(targets[1])
     ti2 = [st for st in ast.walk(iff) if isinstance(st, ast.Assign) and
-           ast.unparse(st.targets[0]) == "self.test_indices" and ast.unparse(st.value) == "test_indices"]
+           ast.unparse(st.targets[0]) == "self.test_indices" and isinstance(st.value, ast.Name) and
+           {st.value.id} == idx_test_names]
     ctx.check(bool(ti2), "R16.3", "random split: test_indices are the indices returned for the test part", iff, fn,
               construct="random test_indices")
     ctx.floor("R16.3", "train_test_split sites", len(calls), 2)
@@ -282,8 +359,18 @@ def check_stats(ctx):
     run = prog.method("Simulator", "run")
     ctx.saw_fn(run)
     calls = [c for c in ast.walk(run.node) if isinstance(c, ast.Call) and ast.unparse(c.func) == "self._set_stats"]
-    want = {"'total'": ("self.decisions", "self.rewards"), "'train'": ("train_decisions", "train_rewards"),
-            "'test'": ("test_decisions", "test_rewards")}
+    names = None
+    for st in ast.walk(run.node):
+        if isinstance(st, ast.Assign) and isinstance(st.targets[0], ast.Tuple) and len(st.targets[0].elts) == 6 and \
+                ast.unparse(st.value) == "self._run_train_test_split()":
+            names = [ast.unparse(e) for e in st.targets[0].elts]
+    if names is None:
+        ctx.undecided("R16.4", "Simulator.run: unpacking of _run_train_test_split() not found", run.node, run,
+                      construct="_set_stats calls in run")
+        return
+    # _run_train_test_split returns (train d, r, c, test d, r, c)
+    want = {"'total'": ("self.decisions", "self.rewards"), "'train'": (names[0], names[1]),
+            "'test'": (names[3], names[4])}
     seen = {}
     for c in calls:
         a = [ast.unparse(x) for x in c.args]
@@ -304,20 +391,33 @@ def check_stats(ctx):
         ctx.check(set(ks) == set(base), "R16.4", "statistics record of %s has the common key set" % fn.qualname, d, fn,
                   "keys %s vs %s" % (ks, base))
     ctx.floor("R16.4", "statistics record literals", len(keysets), 4)
-    # predictions accumulated in order
+    # per-bandit result lists are accumulated in order: X[name] = X[name] + new
     n = 0
     for meth in ("_offline_test_bandits", "_online_test_bandits_chunks"):
         fn = prog.method("Simulator", meth)
         for st in ast.walk(fn.node):
-            if isinstance(st, ast.Assign) and ast.unparse(st.targets[0]) in (
-                    "self.bandit_to_predictions[name]", "batch_predictions[name]") and isinstance(st.value,
-                                                                                                 ast.BinOp):
-                n += 1
-                left = ast.unparse(st.value.left)
-                ctx.check(isinstance(st.value.op, ast.Add) and left == ast.unparse(st.targets[0]), "R16.4",
-                          "%s appends new predictions after the old ones" % meth, st, fn,
-                          "expected `X = X + new`")
-    ctx.floor("R16.4", "prediction accumulation sites", n, 3)
+            if not (isinstance(st, ast.Assign) and len(st.targets) == 1 and isinstance(st.targets[0], ast.Subscript)
+                    and isinstance(st.targets[0].slice, ast.Name) and isinstance(st.value, ast.BinOp)):
+                continue
+            if st.targets[0].slice.id != _bandit_name_var(st):
+                continue
+            tgt = ast.unparse(st.targets[0])
+            if tgt not in (ast.unparse(st.value.left), ast.unparse(st.value.right)):
+                continue
+            n += 1
+            ctx.check(isinstance(st.value.op, ast.Add) and ast.unparse(st.value.left) == tgt, "R16.4",
+                      "%s appends new results after the old ones" % meth, st, fn, "expected `X = X + new`")
+    ctx.floor("R16.4", "result accumulation sites", n, 5)
+
+
+def _bandit_name_var(node):
+    g = parent(node)
+    while g is not None:
+        if isinstance(g, ast.For) and ast.unparse(g.iter) == "self.bandits" and isinstance(g.target, ast.Tuple) \
+                and len(g.target.elts) == 2 and isinstance(g.target.elts[0], ast.Name):
+            return g.target.elts[0].id
+        g = parent(g)
+    return None
 
 
 def check(ctx):
@@ -325,6 +425,7 @@ def check(ctx):
     ctx.rule("R16.2", "one credit per prediction; observed reward iff prediction == decision")
     ctx.rule("R16.3", "split operands/targets paired")
     ctx.rule("R16.4", "statistics origins, record schema, ordered accumulation")
+    ctx.rule("R16.5", "presence of a neighbourhood statistic is decided on containers, not on the number")
     check_windows(ctx)
     check_evaluator(ctx)
     check_split(ctx)
